@@ -1830,6 +1830,88 @@ def at_defaults(fi, established):
     return nf, extra
 
 
+def ssa_straightline(stmts, params=()):
+    """Value-level view of a statement list: a local that is (re)assigned several times by TOP-LEVEL statements - plain assignment,
+    `x op= e`, or an in-place numpy call `np.f(x, .., out=x)` - gets one name per assignment (`x__v1`, `x__v2`, .., the last one keeps
+    the name), so that every name has one definition and definitions can be substituted into uses.  Only names all of whose stores
+    are top-level statements, that are not parameters and are not referenced from a nested function / lambda are renamed.  This view
+    says what VALUE a name holds; which storage an in-place operation writes is decided on the original statements by the alias
+    analyses.  Returns a cloned list."""
+    return _ssa(stmts, params, probe=True)
+
+
+def _ssa(stmts, params, probe):
+    if not probe:
+        stmts = [clone(s_) for s_ in stmts]
+    top_stores = {}
+    for i, s_ in enumerate(stmts):
+        if isinstance(s_, ast.Assign) and len(s_.targets) == 1 and isinstance(s_.targets[0], ast.Name):
+            top_stores.setdefault(s_.targets[0].id, []).append(i)
+        elif isinstance(s_, ast.AugAssign) and isinstance(s_.target, ast.Name):
+            top_stores.setdefault(s_.target.id, []).append(i)
+        elif isinstance(s_, ast.Expr) and isinstance(s_.value, ast.Call):
+            out = [k for k in s_.value.keywords if k.arg == 'out']
+            if out and isinstance(out[0].value, ast.Name) and s_.value.args and U(s_.value.args[0]) == out[0].value.id:
+                top_stores.setdefault(out[0].value.id, []).append(i)
+    all_stores = {}
+    for s_ in stmts:
+        for n in ast.walk(s_):
+            if isinstance(n, ast.Name) and isinstance(n.ctx, (ast.Store, ast.Del)):
+                all_stores[n.id] = all_stores.get(n.id, 0) + 1
+    captured = {n.id for s_ in stmts for f in ast.walk(s_) if isinstance(f, (ast.Lambda, ast.FunctionDef)) for n in ast.walk(f) if isinstance(n, ast.Name)}
+    todo = {}
+    for nm, idx in top_stores.items():
+        n_aug_out = sum(1 for i in idx if not isinstance(stmts[i], ast.Assign))
+        if len(idx) < 2 or nm in params or nm in captured or all_stores.get(nm, 0) != len(idx) - sum(1 for i in idx if isinstance(stmts[i], ast.Expr)):
+            continue
+        todo[nm] = idx
+    # only chains that contain an in-place step need the value-level view (plain re-assignments are handled by the engines themselves)
+    todo = {nm: idx for nm, idx in todo.items() if any(not isinstance(stmts[i], ast.Assign) for i in idx)}
+    if not todo:
+        return stmts
+    if probe:
+        return _ssa(stmts, params, probe=False)         # something to do: work on a copy (the statements of the function stay as they are)
+    cur = {}        # name -> current version name
+
+    def rename_loads(node):
+        for n in ast.walk(node):
+            if isinstance(n, ast.Name) and isinstance(n.ctx, ast.Load) and n.id in cur:
+                n.id = cur[n.id]
+    out_stmts = []
+    for i, s_ in enumerate(stmts):
+        hit = [nm for nm, idx in todo.items() if i in idx]
+        if not hit:
+            rename_loads(s_)
+            out_stmts.append(s_)
+            continue
+        nm = hit[0]
+        k = todo[nm].index(i)
+        new = nm if k == len(todo[nm]) - 1 else '%s__v%d' % (nm, k + 1)
+        if isinstance(s_, ast.Assign):
+            rename_loads(s_.value)
+            s_.targets[0].id = new
+            ns = s_
+        elif isinstance(s_, ast.AugAssign):
+            rename_loads(s_.value)
+            left = ast.Name(id=cur.get(nm, nm), ctx=ast.Load())
+            ns = ast.copy_location(ast.Assign(targets=[ast.Name(id=new, ctx=ast.Store())], value=ast.BinOp(left=left, op=s_.op, right=s_.value)), s_)
+        else:
+            call = s_.value
+            rename_loads(call)
+            call.keywords = [k_ for k_ in call.keywords if k_.arg != 'out']
+            ns = ast.copy_location(ast.Assign(targets=[ast.Name(id=new, ctx=ast.Store())], value=call), s_)
+        cur[nm] = new
+        out_stmts.append(ns)
+    # in-place calls used as values: np.f(x, out=x) denotes np.f(x)
+    for s_ in out_stmts:
+        for c in ast.walk(s_):
+            if isinstance(c, ast.Call) and c.args and any(k_.arg == 'out' and U(k_.value) == U(c.args[0]) for k_ in c.keywords):
+                c.keywords = [k_ for k_ in c.keywords if k_.arg != 'out']
+    for s_ in out_stmts:
+        ast.fix_missing_locations(s_)
+    return out_stmts
+
+
 def normalised_keeping(repo, fi, names):
     """normal form of fi in which calls of the module-level helpers `names` stay calls (not cached)"""
     nz = Normaliser(repo, fi)
